@@ -157,47 +157,63 @@ var filterExprs = []string{
 	"AND(EQ(id,1),AND(EQ(id,1),AND(EQ(id,1),AND(EQ(id,1),AND(EQ(id,1),EQ(id,2))))))",
 }
 
+// genParamValue draws a value for a declared query parameter. The class is
+// drawn first (empty / well-formed / wrong type / odd string), so that the
+// empty value and the other classes are frequent for every parameter.
 func genParamValue(t *rapid.T, name, typ string) string {
-	right := rapid.IntRange(0, 2).Draw(t, "right-"+name) != 0
+	class := rapid.SampledFrom([]string{"empty", "good", "good", "bad", "bad", "odd"}).Draw(t, "class-"+name)
+	if class == "empty" {
+		return ""
+	}
+	if class == "odd" {
+		return genOdd(t, "oddparam")
+	}
+	right := class == "good"
 	switch {
 	case name == "filter":
-		if rapid.IntRange(0, 5).Draw(t, "deepfilter") == 0 {
+		if !right && rapid.IntRange(0, 5).Draw(t, "deepfilter") == 0 {
 			n := rapid.SampledFrom([]int{50, 500, 5000}).Draw(t, "fn")
 			return strings.Repeat("NOT(", n) + "EQ(id,1)" + strings.Repeat(")", n)
 		}
-		return rapid.SampledFrom(filterExprs).Draw(t, "filter")
+		if right {
+			return rapid.SampledFrom(filterExprs[:7]).Draw(t, "goodfilter")
+		}
+		return rapid.SampledFrom(filterExprs[7:]).Draw(t, "filter")
 	case name == "columns" || name == "sort":
-		return rapid.SampledFrom([]string{"id", "id,name", "name,id,score,ok", "~id", "-id", "id,", ",id", ",", ",,,", "nosuch", "id,nosuch", "*", "id;drop", "\"id\"", "'id'", "id id", "count(*)", "_row_id_", "id,id,id", strings.Repeat("id,", 3000) + "id", ""}).Draw(t, "cols")
+		if right {
+			return rapid.SampledFrom([]string{"id", "id,name", "name,id,score,ok", "~id", "_row_id_"}).Draw(t, "goodcols")
+		}
+		return rapid.SampledFrom([]string{"-id", "id,", ",id", ",", ",,,", "~", "~,", "nosuch", "id,nosuch", "*", "id;drop", "\"id\"", "'id'", "id id", "count(*)", "id,id,id", strings.Repeat("id,", 3000) + "id", " "}).Draw(t, "cols")
 	case name == "user":
-		return rapid.SampledFrom([]string{userName, adminName, victimName, "nosuch", "", "'", "*", "a,b", "%00"}).Draw(t, "userv")
+		return rapid.SampledFrom([]string{userName, adminName, victimName, "nosuch", "'", "*", "a,b", "%00"}).Draw(t, "userv")
 	case name == "transaction":
-		return rapid.SampledFrom([]string{"123e4567-e89b-12d3-a456-426614174000", "", "x", "0", "-1", "null", "'", strings.Repeat("a", 5000)}).Draw(t, "txv")
+		return rapid.SampledFrom([]string{"123e4567-e89b-12d3-a456-426614174000", "x", "0", "-1", "null", "'", strings.Repeat("a", 5000)}).Draw(t, "txv")
 	case name == "class":
-		return rapid.SampledFrom([]string{"assets", "services", "assets,services", "all", "tokens", "users", "dsns", "schemas", "authorizations", "", ",", "bogus", "ASSETS", "assets,bogus", "*"}).Draw(t, "classv")
+		return rapid.SampledFrom([]string{"assets", "services", "assets,services", "all", "tokens", "users", "dsns", "schemas", "authorizations", ",", "bogus", "ASSETS", "assets,bogus", "*"}).Draw(t, "classv")
 	case name == "order-by":
-		return rapid.SampledFrom([]string{"name", "count", "size", "age", "", "bogus", "name,count", "~name", "'"}).Draw(t, "orderv")
+		return rapid.SampledFrom([]string{"name", "count", "size", "age", "bogus", "name,count", "~name", "'"}).Draw(t, "orderv")
 	}
 	switch typ {
 	case "int":
 		if right {
 			return rapid.SampledFrom([]string{"0", "1", "2", "5", "100", "999", "1000", "1001"}).Draw(t, "int")
 		}
-		return rapid.SampledFrom([]string{"", "-1", "-0", "+1", "abc", "1.5", "1e3", "0x10", "99999999999999999999", "9223372036854775807", "-9223372036854775808", "2147483648", " 1", "1 ", "1,2", "٣", "null", "true"}).Draw(t, "badint")
+		return rapid.SampledFrom([]string{"-1", "-0", "+1", "abc", "1.5", "1e3", "0x10", "99999999999999999999", "9223372036854775807", "-9223372036854775808", "2147483648", " 1", "1 ", "1,2", "٣", "null", "true"}).Draw(t, "badint")
 	case "bool":
 		if right {
-			return rapid.SampledFrom([]string{"true", "false", "TRUE", "1", "0", ""}).Draw(t, "bool")
+			return rapid.SampledFrom([]string{"true", "false", "TRUE", "1", "0"}).Draw(t, "bool")
 		}
 		return rapid.SampledFrom([]string{"maybe", "yes", "no", "2", "-1", "tru", "null", "t", "f", "true,false", " true"}).Draw(t, "badbool")
 	case "duration":
 		if right {
 			return rapid.SampledFrom([]string{"1s", "5m", "1h", "0s", "100ms", "1h30m"}).Draw(t, "dur")
 		}
-		return rapid.SampledFrom([]string{"", "-1s", "1d", "1", "xyz", "1h 30m", "99999999999h", "1e9s", "-9223372036854775808ns", ".s", "1ss"}).Draw(t, "baddur")
+		return rapid.SampledFrom([]string{"-1s", "1d", "1", "xyz", "1h 30m", "99999999999h", "1e9s", "-9223372036854775808ns", ".s", "1ss"}).Draw(t, "baddur")
 	case "list":
-		return rapid.SampledFrom([]string{"a", "a,b", ",", ",,,", "a,,b", "", "'", "a;b", strings.Repeat("a,", 2000)}).Draw(t, "list")
+		return rapid.SampledFrom([]string{"a", "a,b", ",", ",,,", "a,,b", "'", "a;b", strings.Repeat("a,", 2000)}).Draw(t, "list")
 	}
 	if right {
-		return rapid.SampledFrom([]string{"x", "name", "en", "fr", "GET", "/admin/users/", "admin.users:post", "1"}).Draw(t, "str")
+		return rapid.SampledFrom([]string{"x", "name", "en", "fr", "GET", "POST", "/admin/users/", "/dsns/", "admin.users:post", "@user", "1"}).Draw(t, "str")
 	}
 	return genOdd(t, "oddparam")
 }
@@ -211,6 +227,10 @@ func (e *env) genQuery(t *rapid.T, info router.VerifRouteInfo, fc focus) (string
 	var pairs []string
 	class := "none"
 	rowsRoute := strings.HasSuffix(info.Endpoint, "/rows") && (info.Method == "DELETE" || info.Method == "PATCH")
+	forced := ""
+	if fc.on && fc.dim == "query" && len(names) > 0 {
+		forced = rapid.SampledFrom(names).Draw(t, "forced")
+	}
 	for _, n := range names {
 		if fc.calm("query") {
 			// only what the handler insists on: a well-formed filter for row updates / deletes
@@ -220,7 +240,7 @@ func (e *env) genQuery(t *rapid.T, info router.VerifRouteInfo, fc focus) (string
 			}
 			continue
 		}
-		if rapid.IntRange(0, 2).Draw(t, "has-"+n) == 0 || (n == "filter" && rowsRoute && rapid.Bool().Draw(t, "needfilter")) {
+		if rapid.IntRange(0, 2).Draw(t, "has-"+n) == 0 || (n == "filter" && rowsRoute && rapid.Bool().Draw(t, "needfilter")) || (fc.on && n == forced) {
 			v := genParamValue(t, n, info.Parameters[n])
 			pairs = append(pairs, url.QueryEscape(n)+"="+url.QueryEscape(v))
 			class = "declared"
@@ -721,14 +741,17 @@ func genCase(t *rapid.T) Case {
 	}
 	// route: uniform over the table, the table and row routes a bit heavier
 	var info router.VerifRouteInfo
-	if rapid.IntRange(0, 3).Draw(t, "heavy") == 0 {
-		var heavy []router.VerifRouteInfo
-		for _, r := range e.routes {
-			if strings.Contains(r.Endpoint, "/tables/") || strings.HasPrefix(r.Endpoint, "/admin/users") || strings.HasPrefix(r.Endpoint, "/dsns/") {
-				heavy = append(heavy, r)
+	if rapid.Bool().Draw(t, "weighted") {
+		// weighted by surface: 1 + variables + declared parameters + documented payloads/4
+		if e.weighted == nil {
+			for _, r := range e.routes {
+				w := 1 + strings.Count(r.Endpoint, "{{") + len(r.Parameters) + len(e.basePayloads(r.Method, r.Endpoint))/4
+				for ; w > 0; w-- {
+					e.weighted = append(e.weighted, r)
+				}
 			}
 		}
-		info = heavy[rapid.IntRange(0, len(heavy)-1).Draw(t, "hroute")]
+		info = e.weighted[rapid.IntRange(0, len(e.weighted)-1).Draw(t, "wroute")]
 	} else {
 		info = e.routes[rapid.IntRange(0, len(e.routes)-1).Draw(t, "route")]
 	}
@@ -739,9 +762,25 @@ func genCase(t *rapid.T) Case {
 	var q string
 	var fc focus
 	if rapid.IntRange(0, 2).Draw(t, "focused") != 0 {
-		dims := []string{"vars", "query", "headers", "auth", "body", "body"}
-		if !strings.Contains(info.Endpoint, "{{") {
-			dims = dims[1:]
+		// the hostile dimension is drawn in proportion to the route's surface:
+		// one share per path variable, per declared parameter, two per
+		// documented payload (at most 8), one each for headers and credentials
+		dims := []string{"headers", "auth"}
+		for i := strings.Count(info.Endpoint, "{{"); i > 0; i-- {
+			dims = append(dims, "vars")
+		}
+		for range info.Parameters {
+			dims = append(dims, "query")
+		}
+		nb := 2 * len(e.basePayloads(info.Method, info.Endpoint))
+		if nb > 8 {
+			nb = 8
+		}
+		if nb == 0 && info.Method != "GET" && info.Method != "HEAD" && info.Method != "DELETE" {
+			nb = 2
+		}
+		for ; nb > 0; nb-- {
+			dims = append(dims, "body")
 		}
 		fc = focus{on: true, dim: rapid.SampledFrom(dims).Draw(t, "dim")}
 	}
@@ -766,36 +805,214 @@ func genCase(t *rapid.T) Case {
 	return c
 }
 
-// fixedCases: one plain, well-formed administrator request per route (so every
-// handler that can be reached is reached at least once per run), plus the
-// begin-on-a-missing-DSN probe from reading the code.
+// fixedCases is the enumerated first-order sweep, run before the random search
+// (shard 0): for every route of the table
+//
+//	(a) one plain, well-formed administrator request (and one naming a DSN
+//	    that does not exist);
+//	(b) every declared query parameter alone, with the empty value, a
+//	    well-formed value and two ill-typed ones;
+//	(c) every path variable with each of 8 odd values, the others well-formed;
+//	(d) every documented payload unchanged, then 10 wrong shapes / invalid
+//	    documents as the body;
+//	(d') every leaf of every documented payload replaced, one at a time, by
+//	    "" (string leaves) and by null;
+//	(e) the plain request without credentials, as the non-admin user and with
+//	    the revoked token.
+//
+// A defect that needs only one hostile element is therefore met in every run,
+// whatever the seed; the random search covers the combinations.
 func fixedCases() []Case {
 	e, err := getEnv()
 	if err != nil {
 		return nil
 	}
 	var out []Case
+	fill := func(ep string, odd map[string]string) string {
+		parts := strings.Split(ep, "/")
+		for i, p := range parts {
+			if !strings.HasPrefix(p, "{{") {
+				continue
+			}
+			name := strings.TrimSuffix(strings.TrimSuffix(strings.TrimPrefix(p, "{{"), "}}"), "...")
+			if v, ok := odd[name]; ok {
+				parts[i] = pathEscape(v)
+			} else if name == "item" {
+				parts[i] = "dashboard/dashboard.css"
+			} else {
+				parts[i] = pathEscape(e.goodVar(name)[0])
+			}
+		}
+		return strings.Join(parts, "/")
+	}
+	typed := map[string][]string{
+		"int":      {"", "5", "abc", "-1"},
+		"bool":     {"", "true", "maybe", "2"},
+		"duration": {"", "1m", "xyz", "-1s"},
+		"list":     {"", "id,name", ",", "~"},
+		"string":   {"", "x", "'", "\x00"},
+		"any":      {"", "EQ(id,1)", "EQ(id", "(((("},
+	}
+	oddVars := []string{"", " ", "'", "\x00", "..", "ünï©ødé☃", strings.Repeat("a", 5000), "-1"}
+	bodies := []string{`null`, `[]`, `{}`, `"x"`, `0`, `[null]`, `{"rows":null}`, `{`, ``, `[[[[[[[[[[[[[[[[[[[[`}
 	for _, info := range e.routes {
-		p := info.Endpoint
-		for _, v := range []string{"dsn", "table", "name", "id", "value", "code", "field"} {
-			p = strings.ReplaceAll(p, "{{"+v+"}}", e.goodVar(v)[0])
+		info := info
+		base := func(pc string) Case {
+			c := Case{Method: info.Method, Endpoint: info.Endpoint, Path: fill(info.Endpoint, nil), Auth: "admin", Header: map[string]string{"Content-Type": "application/json"}, PathClass: pc, QueryClass: "none", HdrClass: "plain", BodyClass: "none"}
+			if len(info.AcceptMedia) > 0 {
+				c.Header["Accept"] = info.AcceptMedia[0]
+			}
+			if b := e.basePayloads(info.Method, info.Endpoint); len(b) > 0 {
+				bb, _ := json.Marshal(b[0])
+				c.Body, c.BodyClass = string(bb), "documented"
+			}
+			if strings.HasSuffix(info.Endpoint, "/rows") && (info.Method == "DELETE" || info.Method == "PATCH") {
+				c.Path += "?filter=" + url.QueryEscape("EQ(id,1)")
+			}
+			return c
 		}
-		p = strings.ReplaceAll(p, "{{item...}}", "dashboard/dashboard.css")
-		c := Case{Method: info.Method, Endpoint: info.Endpoint, Path: p, Auth: "admin", Header: map[string]string{"Content-Type": "application/json"}, PathClass: "fixed", QueryClass: "none", HdrClass: "plain", BodyClass: "none"}
-		if len(info.AcceptMedia) > 0 {
-			c.Header["Accept"] = info.AcceptMedia[0]
-		}
-		if b := e.basePayloads(info.Method, info.Endpoint); len(b) > 0 {
-			bb, _ := json.Marshal(b[0])
-			c.Body, c.BodyClass = string(bb), "documented"
-		}
-		out = append(out, c)
+		// (a)
+		out = append(out, base("fixed"))
 		if strings.Contains(info.Endpoint, "{{dsn}}") {
-			c2 := c
-			c2.Path = strings.Replace(c.Path, dsnOpen, "nosuchdsn", 1)
-			c2.PathClass = "fixed-missing-dsn"
-			out = append(out, c2)
+			c := base("fixed-missing-dsn")
+			c.Path = strings.Replace(c.Path, dsnOpen, "nosuchdsn", 1)
+			out = append(out, c)
+		}
+		// (b)
+		names := make([]string, 0, len(info.Parameters))
+		for k := range info.Parameters {
+			names = append(names, k)
+		}
+		sort.Strings(names)
+		for _, n := range names {
+			vals, ok := typed[info.Parameters[n]]
+			if !ok {
+				vals = typed["string"]
+			}
+			for _, v := range vals {
+				c := base("fixed-param")
+				sep := "?"
+				if strings.Contains(c.Path, "?") {
+					if n == "filter" {
+						c.Path = c.Path[:strings.Index(c.Path, "?")]
+					} else {
+						sep = "&"
+					}
+				}
+				c.Path += sep + url.QueryEscape(n) + "=" + url.QueryEscape(v)
+				c.QueryClass = "declared:" + info.Parameters[n]
+				out = append(out, c)
+			}
+		}
+		// (c)
+		for _, p := range strings.Split(info.Endpoint, "/") {
+			if !strings.HasPrefix(p, "{{") {
+				continue
+			}
+			name := strings.TrimSuffix(strings.TrimSuffix(strings.TrimPrefix(p, "{{"), "}}"), "...")
+			for _, v := range oddVars {
+				c := base("fixed-odd-var")
+				q := ""
+				if i := strings.Index(c.Path, "?"); i >= 0 {
+					q = c.Path[i:]
+				}
+				c.Path = fill(info.Endpoint, map[string]string{name: v}) + q
+				out = append(out, c)
+			}
+		}
+		// (d)
+		payloads := e.basePayloads(info.Method, info.Endpoint)
+		for i, b := range payloads {
+			if i == 0 {
+				continue
+			}
+			c := base("fixed-payload")
+			bb, _ := json.Marshal(b)
+			c.Body, c.BodyClass = string(bb), "documented"
+			out = append(out, c)
+		}
+		// (d') every leaf of every documented payload, one at a time, replaced by
+		// the empty string (string leaves) and by null
+		for i, b := range payloads {
+			if i >= 12 {
+				break
+			}
+			for _, v := range leafVariants(b) {
+				c := base("fixed-leaf")
+				bb, _ := json.Marshal(v)
+				c.Body, c.BodyClass = string(bb), "leaf-emptied"
+				out = append(out, c)
+			}
+		}
+		if len(payloads) > 0 || (info.Method != "GET" && info.Method != "HEAD" && info.Method != "DELETE") {
+			for _, b := range bodies {
+				c := base("fixed-body")
+				c.Body, c.BodyClass = b, "wrong-shape"
+				out = append(out, c)
+			}
+		}
+		// (e)
+		for _, a := range []string{"none", "user", "revoked"} {
+			c := base("fixed-auth")
+			c.Auth = a
+			out = append(out, c)
 		}
 	}
+	return out
+}
+
+// leafVariants returns copies of v in which exactly one leaf (scalar, or empty
+// container) is replaced: string leaves by "", every leaf by nil.
+func leafVariants(v any) []any {
+	var out []any
+	var walk func(cur any, rebuild func(any) any)
+	walk = func(cur any, rebuild func(any) any) {
+		switch x := cur.(type) {
+		case M:
+			keys := make([]string, 0, len(x))
+			for k := range x {
+				keys = append(keys, k)
+			}
+			sort.Strings(keys)
+			if len(keys) == 0 {
+				out = append(out, rebuild(nil))
+			}
+			for _, k := range keys {
+				k := k
+				walk(x[k], func(nv any) any {
+					cp := M{}
+					for kk, vv := range x {
+						cp[kk] = vv
+					}
+					cp[k] = nv
+					return rebuild(cp)
+				})
+			}
+		case A:
+			if len(x) == 0 {
+				out = append(out, rebuild(nil))
+			}
+			for i := range x {
+				i := i
+				if i >= 4 {
+					break
+				}
+				walk(x[i], func(nv any) any {
+					cp := append(A{}, x...)
+					cp[i] = nv
+					return rebuild(cp)
+				})
+			}
+		case string:
+			if x != "" {
+				out = append(out, rebuild(""))
+			}
+			out = append(out, rebuild(nil))
+		case nil:
+		default:
+			out = append(out, rebuild(nil))
+		}
+	}
+	walk(v, func(nv any) any { return nv })
 	return out
 }
